@@ -402,7 +402,9 @@ func newSkelBuilder(e *Env) *skelBuilder {
 		e.R.Undecide("T", "template-environment", p)
 	}
 	fset := token.NewFileSet()
-	b := &skelBuilder{e: e, te: te, rd: te.NewRenderer(), fr: readFrags(e), fset: fset, allArgs: map[string]int{},
+	rd := te.NewRenderer()
+	rd.KeepTrace = true
+	b := &skelBuilder{e: e, te: te, rd: rd, fr: readFrags(e), fset: fset, allArgs: map[string]int{},
 		imp: &skelImporter{p: e.P, fset: fset, user: map[string]*types.Package{}}}
 	b.scopes = te.ConstsOf("internal/pkg/output", "Scope")
 	if len(b.scopes) < 4 {
